@@ -153,6 +153,13 @@ def replay_turn(case) -> List[Tuple[str, Dict[str, Any], str]]:
 # ------------------------------------------------------------------------------------------------
 # sessions of real turns, recorded per stage (C->S)
 # ------------------------------------------------------------------------------------------------
+def _known(rank, st, e) -> bool:
+    """every id in the store is inside the logged universe (nested concept ids "c::c::.." grow without bound)"""
+    g = st.get("graph") or {}
+    ids = {r.get("src") for r in g.get("edges", {}).values()} | {r.get("dst") for r in g.get("edges", {}).values()}
+    return all(x["r"] for x in e["nodes"]) and all(i in rank for i in ids)
+
+
 def gen_session(args) -> Dict[str, Any]:
     from clematis.engine.orchestrator import core
     from . import c18_traces as T
@@ -187,7 +194,10 @@ def gen_session(args) -> Dict[str, Any]:
                          kused=int(out["k_used"]), permok=True)
             if op == "tick":
                 e.update(dt0=False, half=(int(dec["half_life_turns"]) == 1))
-            ev.append(e)
+            if cur.get("stop") or not _known(rank, st, e):
+                cur["stop"] = True            # ids beyond the logged universe: the recording ends here
+            else:
+                ev.append(e)
             return out
         return w
 
@@ -200,12 +210,12 @@ def gen_session(args) -> Dict[str, Any]:
             cur["items"] = [(r.choice(ids), r.choice([0.2, 0.5, 0.9, 1.0, 0.0]) if r.random() < 0.3 else r.random()) for _ in range(n)]
             before = len(ev)
             run_real_turn(dict(gcfg, enabled=on), state, cur["items"], str(k + 1), d)
-            if not on:
+            if not on and not cur.get("stop"):
                 if len(ev) != before:
                     ev.append(dict(ev[-1], op="gated-call", gate=True))      # a gel function ran behind a closed gate
                 ev.append(dict(T.snapshot(state, rank, ev[-1]["ml"]), op="turn", gate=False))
-            elif any(x.get("r") == 0 for x in ev[-1]["nodes"]):
-                break                                                        # nested concept ids beyond the logged universe
+            if cur.get("stop"):
+                break
     finally:
         for n in names:
             setattr(core, n, saved[n])
@@ -247,7 +257,7 @@ def check(run) -> None:
         pick = [x for x in cases if x[1]["gate"] and x[1]["obs"]["papplied"]] or cases
         run.sample({"family": "turn", "transition": pick[0][1]}, cap=12)
     # ---- C->S: sessions of real turns ------------------------------------------------------------------
-    n, turns = (12, 8) if q else (400, 12)
+    n, turns = (12, 8) if q else (300, 12)
     tol = sorted(e["signature"].get("cause") for e in run.known
                  if e.get("status") == "open" and e["signature"].get("clause") == "WithinClamp" and e["signature"].get("cause"))
     args = [(run.seed, 100000 + i, turns, tuple(tol)) for i in range(n)]
